@@ -19,10 +19,12 @@ Definition pins : list string := ["usim/_primitives/context.py:CancelScope.__ini
   "usim/_primitives/context.py:Scope._collect_exceptions";
   "usim/_primitives/context.py:Scope._propagate_exceptions";
   "usim/_primitives/context.py:Scope._is_suppressed";
+  "usim/_primitives/context.py:Scope.__repr__";
   "usim/_primitives/context.py:InterruptScope.__init__";
   "usim/_primitives/context.py:InterruptScope.__aenter__";
   "usim/_primitives/context.py:InterruptScope._disable_interrupts";
   "usim/_primitives/context.py:InterruptScope._is_suppressed";
+  "usim/_primitives/context.py:InterruptScope.__repr__";
   "usim/_primitives/context.py:until";
   "usim/_primitives/context.py:<module>";
   "usim/_primitives/context.py:CancelScope.<attrs>";
@@ -40,14 +42,17 @@ Definition pins : list string := ["usim/_primitives/context.py:CancelScope.__ini
   "usim/_primitives/task.py:Task.status";
   "usim/_primitives/task.py:Task.__close__";
   "usim/_primitives/task.py:Task.cancel";
+  "usim/_primitives/task.py:Task.__repr__";
   "usim/_primitives/task.py:Task.__del__";
   "usim/_primitives/task.py:Done.__init__";
   "usim/_primitives/task.py:Done.__bool__";
   "usim/_primitives/task.py:Done.__invert__";
   "usim/_primitives/task.py:Done.__set_done__";
+  "usim/_primitives/task.py:Done.__repr__";
   "usim/_primitives/task.py:NotDone.__init__";
   "usim/_primitives/task.py:NotDone.__bool__";
   "usim/_primitives/task.py:NotDone.__invert__";
+  "usim/_primitives/task.py:NotDone.__repr__";
   "usim/_primitives/task.py:<module>";
   "usim/_primitives/task.py:TaskState.<attrs>";
   "usim/_primitives/task.py:TaskCancelled.<attrs>";
